@@ -635,6 +635,13 @@ class RequestHandler(BaseProtocol, Generic[_Request]):
                     request.remote,
                     exc_info=exc.__cause__,
                 )
+            if request.writer.output_size > 0:
+                # The handler had already started a response: a second one
+                # cannot be spliced into it, the connection is broken.
+                raise ConnectionError(
+                    "Response is sent already, cannot send another response "
+                    "with the error message"
+                ) from exc
             resp = Response(
                 status=exc.status, reason=exc.reason, text=exc.text, headers=exc.headers
             )
